@@ -89,16 +89,25 @@ def numeric_type(prog: Program, rep, RID: str, classes: List[str]):
         key = f"{cname}.get_solution:weights-type"
         if hit is None:
             raise AnalysisError(f"{cname}.get_solution: path_weights_sol list not found")
-        elt = hit.value.elt
-        ok = isinstance(elt, ast.IfExp) and norm(elt.test) in ("self.weight_type == int", "int == self.weight_type") and \
-            isinstance(elt.body, ast.Call) and dotted(elt.body.func) in ("round", "int") and \
-            isinstance(elt.orelse, ast.Call) and dotted(elt.orelse.func) == "float"
-        if isinstance(elt, ast.IfExp) and norm(elt.test) in ("self.weight_type == float", "self.weight_type != int"):
-            ok = isinstance(elt.orelse, ast.Call) and dotted(elt.orelse.func) in ("round", "int") and isinstance(elt.body, ast.Call) and dotted(elt.body.func) == "float"
-        if ok:
+        from rules.common import all_local_defs, normalise_expr, expr_cases
+        from sa import boolnf as B
+        elt = normalise_expr(hit.value.elt, all_local_defs(f.node))
+        is_int = B.parse(ast.parse("self.weight_type == int", mode="eval").body)
+        bad = None
+        for g, x in expr_cases(elt):
+            fn = dotted(x.func) if isinstance(x, ast.Call) else None
+            if B.implies(g, is_int) and B.satisfiable(g):
+                if fn not in ("round", "int"):
+                    bad = f"for integer weights the value is `{norm(x)[:60]}` (not rounded)"
+            elif B.implies(g, B.mk_not(is_int)):
+                if fn != "float":
+                    bad = f"for non-integer weights the value is `{norm(x)[:60]}` (not float())"
+            else:
+                bad = f"`{norm(x)[:60]}` is used whether or not weight_type == int"
+        if bad is None:
             rep.ok(RID, key, "round() for int weights, float() otherwise", f.loc(hit), sample={"elt": norm(elt)[:100]})
         else:
-            rep.violation(RID, key, f"returned weights are built as `{norm(elt)[:90]}`: not round() iff weight_type == int / float() otherwise - "
+            rep.violation(RID, key, f"returned weights are built as `{norm(elt)[:90]}`: not round() iff weight_type == int / float() otherwise ({bad}) - "
                           "integer models may return 2.9999999 or floats for int", f.loc(hit))
         decl = family_decl(prog, cls)
         wf = decl.get("self.path_weights_vars")
